@@ -1501,6 +1501,12 @@ br_ssl_engine_hs_reset(br_ssl_engine_context *cc,
 	 * and must not show the curve used with a previous peer.
 	 */
 	cc->ecdhe_curve = 0;
+
+	/*
+	 * Likewise, the 'max fragment length was negotiated' mark of a
+	 * client is about this connection only.
+	 */
+	cc->max_frag_len_negotiated = 0;
 	jump_handshake(cc, 0);
 }
 
